@@ -4,6 +4,7 @@ import (
 	"fmt"
 	"regexp"
 	"sort"
+	"strconv"
 	"strings"
 
 	"ddcheck/core"
@@ -118,9 +119,31 @@ func C20(p *core.Program, r *core.Report) {
 			{"is not body", q(`dom.TagName($1) == "body"`), false},
 			{"is not an anchor", q(`dom.TagName($1) == "a"`), false},
 		}
-		reRole := regexp.MustCompile(q(`in(` + unlikelyRoleSet + `,dom.GetAttribute($1,"role"))`))
+		// the role test: a lookup in the table, or the same finite set spelled as a switch /
+		// chain of comparisons of the role attribute
+		roleAttr := `dom.GetAttribute($1,"role")`
+		roleAlts := []string{regexp.QuoteMeta(`in(` + unlikelyRoleSet + `,` + roleAttr + `)`)}
+		for _, k := range tableKeys(unlikelyRoleSet) {
+			roleAlts = append(roleAlts, regexp.QuoteMeta(roleAttr+` == `+strconv.Quote(k)), regexp.QuoteMeta(strconv.Quote(k)+` == `+roleAttr))
+		}
+		reRole := regexp.MustCompile(`^(` + strings.Join(roleAlts, "|") + `)$`)
 		cutRole, mr := core.CutAtoms(p, ve, reRole, true)
-		r.Add("F3", "visitor consults the unlikely-role table", p.Pos(ve.Pos()), len(mr) == 1, fmt.Sprintf("%d branches", len(mr)))
+		roleAsSwitch := false
+		roleOK := len(mr) == 1 && strings.HasPrefix(mr[0], "in(")
+		if !roleOK {
+			got := map[string]bool{}
+			for _, a := range mr {
+				if strings.HasPrefix(a, "in(") {
+					got["in"] = true
+				}
+				if k, err := strconv.Unquote(strings.TrimSuffix(strings.TrimPrefix(a, roleAttr+" == "), " == "+roleAttr)); err == nil {
+					got[k] = true
+				}
+			}
+			roleAsSwitch = sameSet(keys(got), tableKeys(unlikelyRoleSet))
+			roleOK = roleAsSwitch
+		}
+		r.Add("F3", "visitor consults the unlikely-role table", p.Pos(ve.Pos()), roleOK, fmt.Sprintf("%d branches: %v", len(mr), mr))
 		nFlagReturns := 0
 		for _, ret := range core.Returns(ve) {
 			if core.InstrReachable(ve, nil, ret) && !core.InstrReachable(ve, cutFlagSet, ret) {
@@ -145,7 +168,7 @@ func C20(p *core.Program, r *core.Report) {
 		// readers of the patterns / role table
 		for _, g := range []struct{ name, content string }{{"the unlikely-candidates pattern", rxUnlikely}, {"the ok-maybe pattern", rxOkMaybe}, {"the unlikely-roles table", unlikelyRoleSet}} {
 			users := globalReaderFuncs(p, core.ExpandKey(converterPkg), g.content)
-			ok := len(users) >= 1
+			ok := len(users) >= 1 || (g.content == unlikelyRoleSet && roleAsSwitch) // no table: the set is spelled out in the visitor
 			var names []string
 			for _, u := range users {
 				names = append(names, core.ShortKey(u))
